@@ -40,7 +40,7 @@ ASSUMPTIONS = [
 PROBES = ("waiter_found_item_after_lock", "item_fetched_while_sibling_waits", "cancel_inside_source",
           "cancel_at_lock_wait", "cancel_between_items", "child_closed_early", "child_abandoned",
           "lock_contended", "no_lock", "all_children_exhausted", "cancelled_child_left_unclosed",
-          "dropped_children_finalised_by_loop")
+          "dropped_children_finalised_by_loop", "tee_object_closed")
 
 
 class Prog:
@@ -87,6 +87,8 @@ def gen(ch):
         sc.cancel = ch.draw(sc.n)
     # a cancelled consumer either closes its child on the way out or just lets go of it
     sc.cancel_closes = not ch.chance(1, 3)
+    # afterwards the tee object itself is closed: 1 by aclose(), 2 by leaving ``async with tee`` (0: not at all)
+    sc.close_handle = ch.weighted([3, 1, 1])
     # a lock object may well test false (say, __len__ = number of waiters): it is a lock all the same
     sc.lock_falsy = bool(sc.lock) and ch.chance(1, 4)
     # backend B: the real asyncio.Lock and Task.cancel() (only meaningful with a lock)
@@ -285,6 +287,28 @@ def execute(st_, ctx):
         for t in tasks:
             if t.error is not None and not (t.cancelled_with is not None and t.error is t.cancelled_with):
                 out.violate("C09.task_failed", (sig_lock, type(t.error).__name__), dict(describe(), error=repr(t.error)))
+    # ---- the tee object itself is closed (or the block of ``async with tee`` left): every child is closed by that,
+    # lagging or abandoned ones too, and none of them keeps its backlog alive afterwards
+    if sc.close_handle and not (sim.capped or sim.deadlock):
+        async def close_all():
+            if sc.close_handle == 2:
+                async with handle:
+                    pass
+            else:
+                await handle.aclose()
+
+        closer = sim.spawn(close_all(), "close-handle")
+        run_sim(sim)
+        if not (sim.capped or sim.deadlock):
+            if closer.error is not None:
+                out.violate("C09.closing_the_tee_failed", (sig_lock, type(closer.error).__name__), dict(describe(), error=repr(closer.error)))
+            st.done = [True] * sc.n
+            check_retention(st)
+            if st.retention is not None and not out.violations:
+                out.violate("C09.item_retained", (sig_lock, "after the tee was closed"), dict(describe(), retention=repr(st.retention)))
+            if src.must_release and not src.released and not out.violations:
+                out.violate("C09.source_not_closed_after_last_child", (sig_lock, "after the tee was closed"), describe())
+            out.probes["tee_object_closed"] = 1
     # ---- at last everything is simply dropped (handle, children, suspended generators): whatever cleans up then
     # still has to go through the loop - finalisers run as tasks of the simulator, and every token a user awaitable
     # yields must arrive there (checked by the loop protocol in finish_outcome)
@@ -331,7 +355,7 @@ def execute(st_, ctx):
     if all(f == "stop" for f in st.finished):
         out.probes["all_children_exhausted"] = 1
     out.nontrivial = src.delivered >= 2 and sum(1 for y in st.yields if y) >= 2
-    out.shape = (sc.backend, sc.n, bool(sc.lock), sc.lock_falsy, sc.cancel_closes if sc.cancel is not None else None, sc.src.flavour, len(sc.src.items), sc.src.suspend,
+    out.shape = (sc.backend, sc.close_handle, sc.n, bool(sc.lock), sc.lock_falsy, sc.cancel_closes if sc.cancel is not None else None, sc.src.flavour, len(sc.src.items), sc.src.suspend,
                  tuple((p.take, p.then, tuple(p.pauses)) for p in sc.progs), sc.cancel,
                  hash(tuple(sim.trace)))
     if ctx.want_sample:
